@@ -1,5 +1,5 @@
 /*VERIF
-{ "tu": "src/queue.c", "enforce": "_dispatch_lane_resume", "props": ["C06","C01","C17"], "nondet_volatile": true, "timeout": 200,
+{ "tu": "src/queue.c", "enforce": "_dispatch_lane_resume", "props": ["C06","C01","C17","C04"], "nondet_volatile": true, "timeout": 200,
   "stub_note": "_dispatch_lane_resume_slow, _dispatch_lane_resume_activate, dx_wakeup, release_2: logged calls" }
 VERIF*/
 #ifdef VERIF_PRE
@@ -15,6 +15,9 @@ static void _dispatch_lane_resume_activate(dispatch_lane_t dq) { __verif_event(E
 #define S_N LOGB(0)
 #define HAS_COMMIT (__verif_n >= 1 && IS_COMMIT(0, &H_lane.dq_state))
 #define PLAIN_DEC (HAS_COMMIT && !activate && (S_O & SBITS) != (SINT + B_NA) && (S_N & ~(DISPATCH_QUEUE_DIRTY | DISPATCH_QUEUE_DRAIN_UNLOCK_MASK | DISPATCH_QUEUE_MAX_QOS_MASK | DISPATCH_QUEUE_IN_BARRIER | DISPATCH_QUEUE_WIDTH_MASK | DISPATCH_QUEUE_PENDING_BARRIER | DISPATCH_QUEUE_ENQUEUED)) == ((S_O - SINT) & ~(DISPATCH_QUEUE_DIRTY | DISPATCH_QUEUE_DRAIN_UNLOCK_MASK | DISPATCH_QUEUE_MAX_QOS_MASK | DISPATCH_QUEUE_IN_BARRIER | DISPATCH_QUEUE_WIDTH_MASK | DISPATCH_QUEUE_PENDING_BARRIER | DISPATCH_QUEUE_ENQUEUED)))
+/* width accounting (C04): units held by readers / a drainer as encoded in a state word of a queue of width w */
+#define HELD(s, w) (S_WIDTH13(s) - (DISPATCH_QUEUE_WIDTH_FULL - (w)) - (S_PENDING_B(s) ? (w) - 1 : 0))
+#define WACC(s, w) (!S_IN_BARRIER(s) && S_WIDTH13(s) >= (DISPATCH_QUEUE_WIDTH_FULL - (w)) + (S_PENDING_B(s) ? (w) - 1 : 0) && HELD(s, w) <= (w))
 VERIF_CONTRACT_VOID(_dispatch_lane_resume, (dispatch_lane_class_t dqu, bool activate),
   REQ(dqu._dl == H_DQ && __verif_n == 0 && VALID_WIDTH(H_lane.dq_width) && VALID_TID(H_SELF))
   ASG(H_lane.dq_state, VERIF_GHOST)
@@ -38,6 +41,9 @@ VERIF_CONTRACT_VOID(_dispatch_lane_resume, (dispatch_lane_class_t dqu, bool acti
         ((S_N ^ S_O) & DISPATCH_QUEUE_IN_BARRIER) ? (LOGK(LAST) == EV_WAKEUP && (LOGA(LAST) & DISPATCH_WAKEUP_BARRIER_COMPLETE) && (LOGA(LAST) & DISPATCH_WAKEUP_CONSUME_2) && S_OWNER(S_N) == H_SELF && !S_LOCKED(S_O))
         : (!S_RUNNABLE(S_N) || S_LOCKED(S_N)) ? (S_DIRTY(S_N) && VIMPL(!S_RUNNABLE(S_N), LOGK(LAST) == EV_RELEASE && LOGA(LAST) == 2))
         : (LOGK(LAST) == EV_WAKEUP && (LOGA(LAST) & DISPATCH_WAKEUP_CONSUME_2) && !(LOGA(LAST) & DISPATCH_WAKEUP_BARRIER_COMPLETE))))
+  /* C04: the resumer may make itself the barrier owner (full width) only when NOBODY holds a unit of width */
+  ENS(barrier_takeover_on_resume_only_when_nobody_holds_width, VIMPL(!activate && HAS_COMMIT && ((S_N ^ S_O) & DISPATCH_QUEUE_IN_BARRIER) && WACC(S_O, H_lane.dq_width) && H_lane.dq_width <= DISPATCH_QUEUE_WIDTH_MAX,
+        HELD(S_O, H_lane.dq_width) == 0 && S_FULL(S_N) && S_IN_BARRIER(S_N) && !S_PENDING_B(S_N)))
   ENS(plus_two_of_the_first_suspend_is_consumed_exactly_once, VIMPL(!activate && HAS_COMMIT && (S_O & SBITS) != (SINT + B_NA) && !S_SUSPENDED(S_N),
         (LOGK(LAST) == EV_WAKEUP && (LOGA(LAST) & DISPATCH_WAKEUP_CONSUME_2)) || (LOGK(LAST) == EV_RELEASE && LOGA(LAST) == 2)))
 )
